@@ -50,7 +50,7 @@ GRAD = '<linearGradient id="{id}" x1="0" y1="0" x2="1"{extra}>{stops}</linearGra
 STOPS = '<stop offset="0" stop-color="red"/><stop offset="1" stop-color="blue"/>'
 RGRAD = '<radialGradient id="{id}"{extra}>{stops}</radialGradient>'
 
-SETUPS = ["g", "g+h", "h->g", "h->g->t"]
+SETUPS = ["g", "g+h", "h->g", "h->g->t", "h->g*->t*"]
 COLLISIONS = ["none", "shape:g_0", "grad:g_0", "shape:g_0+g_1", "shape:h_0", "root:g_0", "stop:g_0"]
 
 
@@ -67,6 +67,14 @@ def document(setup, collision, seq, nested, clip, ids):
             GRAD.format(id="t", extra=' spreadMethod="reflect"', stops=STOPS)
             + GRAD.format(id="g", extra=' xlink:href="#t"', stops="")
             + GRAD.format(id="h", extra=' xlink:href="#g" y2="1"', stops="")
+        )
+    elif setup == "h->g*->t*":
+        # round 7: the referrer comes first in document order; the middle template has stops of its own WITH ids and
+        # still an href; the far end has id-carrying stops too
+        defs += (
+            GRAD.format(id="h", extra=' xlink:href="#g" y2="1"', stops="")
+            + GRAD.format(id="g", extra=' xlink:href="#t"', stops='<stop id="sa" offset="0" stop-color="green"/><stop id="sb" offset="1" stop-color="white"/>')
+            + GRAD.format(id="t", extra=' spreadMethod="reflect"', stops='<stop id="sc" offset="0" stop-color="red"/><stop id="sd" offset="1" stop-color="blue"/>')
         )
     body = ""
     if collision == "shape:g_0":
